@@ -1,0 +1,18 @@
+//go:build verif
+
+package table
+
+// Verification hooks (build tag `verif`). With the tag off (verif_off.go) every hook is an empty
+// inlinable function.
+
+// VerifKeyHook, when set, maps the hash that keys the destination map, so that a test can make
+// distinct prefixes share a hash bucket (the collision chains cannot be provoked with real 64-bit
+// hashes). Set it before the first table is created.
+var VerifKeyHook func(h uint64) uint64
+
+func verifKey(h uint64) uint64 {
+	if f := VerifKeyHook; f != nil {
+		return f(h)
+	}
+	return h
+}
